@@ -699,7 +699,13 @@ def run(ctx):
     # ---------------- evaluate everything in Coq
     n, bad, err = (0, [], None)
     if gen_ok:
-        n, bad, err = runner.run_case_files("C19", IMPORTS, "jcase", "jcheck", terms, shard=150)
+        for attempt in range(3):
+            n, bad, err = runner.run_case_files("C19", IMPORTS, "jcase", "jcheck", terms, shard=150)
+            if err and ("Cannot find a physical path" in err or "Compiled library" in err or "bad version" in err) and attempt < 2:
+                # a concurrent `make clean` / rebuild of another check removed the compiled model under the shards: rebuild, retry
+                runner.coq_make(["Props/C19.vo", "Corr/Json.vo"])
+                continue
+            break
         if err:
             ctx.broke("correspondence could not be evaluated in Coq", err)
         for i in bad[:20]:
